@@ -3,11 +3,14 @@ CONSTANTS
   MaxMoves = 3
   MaxCrashes = 2
   MaxRemoveFails = 1
+  MaxFaults = 1
   BugNoDirSync = FALSE
   BugSyncBeforeCreate = FALSE
   BugLowestIterWins = FALSE
+  BugIterLate = FALSE
 INVARIANT Atomic
 INVARIANT StaleNeverWins
 INVARIANT ObsoleteLower
+INVARIANT UniqueIter
 INVARIANT TypeOK
 CHECK_DEADLOCK FALSE
